@@ -25,6 +25,34 @@ fn main() {
                         Err(e) => format!("err {}", hex(format!("{}", e).as_bytes())),
                     }
                 }
+                // the build-script front end: cargo_build() writes $OUT_DIR/<stem>.rs; run it for a first definition, then for a
+                // second one under the same file name (what a rebuild after an edit does) and compare the file with generate()
+                "buildrs" => {
+                    let dir = std::env::temp_dir().join(format!("vh-buildrs-{}-{}", std::process::id(), id));
+                    let _ = std::fs::remove_dir_all(&dir);
+                    std::fs::create_dir_all(dir.join("out")).unwrap();
+                    std::env::set_var("OUT_DIR", dir.join("out"));
+                    let input = dir.join("x.y.varlink");
+                    let mut last: Vec<u8> = Vec::new();
+                    for h in a.iter() {
+                        last = unhex(h);
+                        std::fs::write(&input, &last).unwrap();
+                        varlink_generator::cargo_build(&input);
+                    }
+                    let got = std::fs::read(dir.join("out").join("x.y.rs")).unwrap_or_default();
+                    let _ = std::fs::remove_dir_all(&dir);
+                    let mut want: Vec<u8> = Vec::new();
+                    match varlink_generator::generate(&mut &last[..], &mut want, false) {
+                        Ok(()) => {
+                            if got == want {
+                                "same".to_string()
+                            } else {
+                                format!("differs got={} want={}", hex(&got), hex(&want))
+                            }
+                        }
+                        Err(e) => format!("err {}", hex(format!("{}", e).as_bytes())),
+                    }
+                }
                 _ => "UNKNOWN-OP".to_string(),
             }
         }));
